@@ -122,7 +122,7 @@ frame_lemmas (addErrAt E s m p) unfolding addErrAt : exprCnt rstack vstack recov
 frame_lemmas (addErr E s m) unfolding addErr addErrAt : exprCnt rstack vstack recoveryStack maxFailInvert state pt memo global trace nCalls end
 frame_lemmas (addErrAtOpt E s o p) unfolding addErrAtOpt addErrAt : exprCnt rstack vstack recoveryStack maxFailInvert state pt memo global trace nCalls end
 frame_lemmas (addErrOpt E s o) unfolding addErrOpt addErrAtOpt addErrAt : exprCnt rstack vstack recoveryStack maxFailInvert state pt memo global trace nCalls end
-frame_lemmas (failAt s b p w) unfolding failAt : exprCnt rstack vstack recoveryStack maxFailInvert state pt memo errs global trace nCalls end
+frame_lemmas (failAt s b p w) unfolding failAt failAtCore : exprCnt rstack vstack recoveryStack maxFailInvert state pt memo errs global trace nCalls end
 frame_lemmas (restore s p) unfolding restore : exprCnt rstack vstack recoveryStack maxFailInvert state memo errs global trace nCalls end
 frame_lemmas (restoreState E s st) unfolding restoreState : exprCnt rstack vstack recoveryStack maxFailInvert pt memo errs global trace nCalls end
 frame_lemmas (setMemoized s p k t) unfolding setMemoized : exprCnt rstack vstack recoveryStack maxFailInvert state pt errs global trace nCalls end
